@@ -1,8 +1,8 @@
 PROP = dict(
-  units=['vhm_bs', 'vhm', 'vhm_it:find,erase_b0,erase_b1,deref', 'cxxstatic:vhm'],    # find(key) and erase(find(key)) are map operations of the C10 statement; their contracts live in unit vhm_it
+  units=['vhm_bs', 'vhm', 'vhm_alloc', 'vhm_it:find,erase_b0,erase_b1,deref', 'cxxstatic:vhm'],    # find(key) and erase(find(key)) are map operations of the C10 statement; their contracts live in unit vhm_it
   level='other',
   obligations=['vhm.bs.*', 'vhm.emplace.iff_absent', 'vhm.emplace.pool', 'vhm.emplace.publish_order', 'vhm.grow.publish_order', 'vhm.emplace.retry_state', 'vhm.extract.iff_present', 'vhm.extract.pool',
-               'vhm.erase.retires_only_removed', 'vhm.ops.unlock', 'vhm.ops.frame', 'vhm.remove.version_bumped', 'vhm.alloc_ext.pops_free', 'vhm.free_ext.own_bucket',
+               'vhm.erase.retires_only_removed', 'vhm.ops.unlock', 'vhm.ops.frame', 'vhm.remove.version_bumped', 'vhm.alloc_ext.pops_free', 'vhm.alloc.region', 'vhm.alloc.aligned', 'vhm.alloc.header', 'vhm.alloc.free_lists', 'vhm.free_ext.own_bucket',
                'vhm.lock_bucket.acquired', 'vhm.grow.resize_lock', 'vhm.grow.conserves', 'vhm.get.validated', 'vhm.get.absent_validated', 'vhm.get.terminates',
                'vhm.get.seq_lookup', 'vhm.acc.names_item', 'vhm.it.find.position', 'vhm.it.erase.exact', 'vhm.it.erase.version_bumped', 'vhm.it.deref.current', 'vhm.sync.release', 'vhm.sync.acquire', 'static.vhm.no_use_after_move'],
   explanation='bucket_state algebra for all 2^32 states; per-bucket map refinement of do_get_or_emplace / do_extract / erase / extract / do_grow / extension-item pool on the extracted text in '
@@ -12,6 +12,7 @@ PROP = dict(
                'supporting static fact (clang-tidy bugprone-use-after-move, unit cxxstatic): heuristic, covers std::move semantics dropped by the C lowering',
                'keys/values are 16-bit words standing for any type; managed_ptr modes: Value objects under different keys are distinct and non-null',
                'the emplace / get_or_emplace / get_or_emplace_lazy wrappers only build lambdas around do_get_or_emplace and are not lowered (Factory/Callback are harness hooks); the destructor is not under contract',
+               'allocate_block (unit vhm_alloc): every bucket_count 2^0..2^31 and base address, but only power-of-two sizeof(extension_bucket) (256/128/512) - other sizes undecided (modulo by a non-power-of-two constant timed out)',
                'writers proved on a one-bucket block; do_grow with one old bucket into two new; extension chain <= 2 (thorough 3), pool 4',
                'no version wrap (2^27) within one try_get_value call; INT mode sequentially consistent'],
   trusted_base=[],
